@@ -174,7 +174,7 @@ var c15HsTypes = map[string]byte{"hreq": 0, "ch": 1, "sh": 2, "nst": 4, "cert": 
 	"cv": 15, "ckx": 16, "fin": 20, "status": 22, "npn": 67, "unk": 99}
 
 var c15InsEvents = map[string]bool{"ccs": true, "badccs": true, "appdata": true, "warn": true, "fatal": true, "closenotify": true,
-	"badalert": true, "empty": true, "unkrec": true, "bigrec": true, "bigmsg": true, "frag": true, "malformed": true}
+	"badalert": true, "empty": true, "unkrec": true, "bigrec": true, "bigmsg": true, "frag": true, "malformed": true, "badvers": true}
 
 func parseC15Script(s string) (*c15Script, bool) {
 	sc := &c15Script{}
@@ -418,6 +418,8 @@ func (m *c15Mitm) insert(e c15Edit, vers uint16) {
 			m.write(recHandshake, vers, nil)
 		case "unkrec":
 			m.write(99, vers, []byte{1, 2, 3})
+		case "badvers": // a record of a version nobody negotiated
+			m.write(recHandshake, 0x7f7f, []byte{14, 0, 0, 0})
 		case "bigrec": // a header announcing more than maxCiphertext bytes
 			m.writeRaw([]byte{recHandshake, byte(vers >> 8), byte(vers), 0x48, 0x01})
 		case "bigmsg": // a handshake header announcing more than maxHandshake bytes
@@ -1160,7 +1162,7 @@ var c15HsNamesSorted = func() []string {
 }()
 
 var c15RecEvents = []string{"ccs", "badccs", "appdata", "warn", "fatal", "closenotify", "badalert", "empty", "unkrec", "bigrec",
-	"bigmsg", "malformed"}
+	"bigmsg", "malformed", "badvers"}
 
 type c15Gen struct {
 	role   string
@@ -1333,6 +1335,22 @@ func (g *c15Gen) compatible(a, b string) bool {
 			if !isIns(op) && (j == g.ccsIdx || (op == "swap" && j+1 == g.ccsIdx)) {
 				return false
 			}
+		}
+	}
+	// likewise ServerHelloDone, which has no contents: an inserted one replaces a removed one exactly
+	for _, p := range [][2]string{{a, b}, {b, a}} {
+		if strings.HasPrefix(p[0], "ins:") && strings.HasSuffix(p[0], ":shd") {
+			op, j := c15EditIdx(p[1])
+			if !isIns(op) && ((j < len(g.flat) && g.flat[j] == "shd") || (op == "swap" && j+1 < len(g.flat) && g.flat[j+1] == "shd")) {
+				return false
+			}
+		}
+	}
+	// a protected record shown to E before any ChangeCipherSpec is noise whose reading depends on the phase: only
+	// alone (E then awaits the ChangeCipherSpec and refuses every handshake record) is the outcome fixed
+	for _, p := range [][3]interface{}{{oa, ia, ob}, {ob, ib, oa}} {
+		if (p[0].(string) == "swap" || p[0].(string) == "drop") && p[1].(int) == g.ccsIdx && !isIns(p[2].(string)) {
+			return false
 		}
 	}
 	// inserted handshake bytes after stray ones
